@@ -109,7 +109,7 @@ def run(ctx, rep):
                 cb = F.body(c)
                 if cb is None:
                     continue
-    rep.floor("C19.min", "minimum selections", total, 8)
+    rep.floor("C19.min", "minimum selections", total, 4)
     # keys: closures passed to min_by_key in encode_subframe / correlate_channels_exhaustive use written()
     for path in ("encode::encode_subframe",):
         fb = anchor(F, rep, "C19.min", path)
